@@ -227,6 +227,26 @@ PROPS["C09"]["stages"].insert(0, dict(name="textview-design", gen=dict(runs=dict
               bfs("MC_TextView", "TextView_flags_t", timeout=3000, workers=8),
               bfs("MC_TextView", "TextView_defect29", expect_violation=True), bfs("MC_TextView", "TextView_defect31", expect_violation=True),
               bfs("MC_TextView", "TextView_finding", expect_violation=True)]))))
+def _c08_strata(c):
+    """sampling strata of the C08 documents: paragraphs holding words and then two or more media (small galleries) are few
+    among the enumerated documents and are all kept"""
+    ns = c.get("nodes", [])
+    for i, n in enumerate(ns):
+        if n["k"] != "P":
+            continue
+        kids = []
+        for m in ns[i + 1:]:
+            if m["d"] <= n["d"]:
+                break
+            if m["d"] == n["d"] + 1:
+                kids.append(m["k"])
+        if "T" in kids and sum(1 for k in kids[kids.index("T"):] if k in ("IMG", "VID", "EMB")) >= 2:
+            return "gallery"
+    return "other"
+
+
+[_s for _s in PROPS["C08"]["stages"] if _s.get("name", "main") == "main"][0]["stratify"] = _c08_strata
+
 # C08: the order of the document filters (relevant elements -> lead image -> nested elements) is part of every call's trace
 PROPS["C08"]["stages"].append(dict(_pc01.stage(_pc01.c11_groups, 60, 1500), name="filter-order", handler="C11"))
 
